@@ -134,6 +134,10 @@ fn check(t: &mut Tape, ctx: &mut Ctx) -> CheckResult {
     let f = ds.pop().unwrap();
     if mismatch {
         gen::mismatch_source(t, &mut g, &f.target_type(), al);
+        // the offending node may sit anywhere in g's numbering (it was appended last)
+        let np = t.permutation(g.nodes.len());
+        let ep = t.permutation(g.edges.len());
+        g = g.renumber(&np, &ep);
     }
     gen::classify(&f, ctx);
     gen::classify(&g, ctx);
